@@ -320,6 +320,22 @@ impl RuntimeData {
             }
         }
 
+        // the closures of the active call frames are in use even if no value refers to them
+        for obj in self.object_list.iter_mut() {
+            unsafe {
+                let t = obj.as_mut();
+                if let CaoLangObjectBody::Closure(c) = &t.body {
+                    let c = c as *const CaoLangClosure;
+                    if matches!(t.marker, GcMarker::White)
+                        && self.call_stack.iter().any(|f| f.closure.cast_const() == c)
+                    {
+                        t.marker = GcMarker::Gray;
+                        progress_tracker.push(t);
+                    }
+                }
+            }
+        }
+
         macro_rules! checked_enqueue_value {
             ($val: ident) => {
                 if let Value::Object(mut value) = $val {
